@@ -435,9 +435,14 @@ def _judge(res, label, text, name, strict, fn, lib, forced_kind=None, translate=
                         expected=exp.exc, got=repr(err), text=text[:300])
             return False
         if exp.exc == "MSDParserError" and str(err) != exp.message:
-            res.violate(P, "wrong-parser-error", entry=label, strict=strict, expected=exp.message,
-                        got=str(err), text=text[:300])
-            return False
+            # the message quotes the last key: with line breaks kept as stored (accepted on
+            # the universal-newline paths, see below) it quotes the untranslated key
+            alt = _expected(text, name, strict, forced_kind)[1] if translate and "\r" in text else None
+            if not (isinstance(alt, LoadError) and alt.exc == "MSDParserError"
+                    and str(err) == alt.message):
+                res.violate(P, "wrong-parser-error", entry=label, strict=strict, expected=exp.message,
+                            got=str(err), text=text[:300])
+                return False
         res.note("err", label.split(":")[0], strict, exp.exc, type(name).__name__)
         res.stats["probe:expected-error:" + exp.exc] += 1
         return True
@@ -456,8 +461,13 @@ def _judge(res, label, text, name, strict, fn, lib, forced_kind=None, translate=
         return False
     gp = ops.real_plain(got, lib)
     if gp != exp.plain():
-        alt = ref_load(t, kind, strict, "")
-        if gp != alt.plain():
+        # accepted either way: key-only ATTACKS/DISPLAYBPM as None or '', and - where the
+        # stream came from text mode with universal newlines - line breaks translated or
+        # kept as stored (that translation is Python's, not the library's)
+        variants = [ref_load(t, kind, strict, "")]
+        if translate and "\r" in text:
+            variants += [ref_load(text, kind, strict), ref_load(text, kind, strict, "")]
+        if not any((not isinstance(v, LoadError)) and gp == v.plain() for v in variants):
             res.violate(P, "loaded-object-differs", entry=label, strict=strict, name=repr(name),
                         got=_trim(gp), expected=_trim(exp.plain()), text=text[:300])
             return False
@@ -502,7 +512,7 @@ def check_c03(sc, res):
                 ddisk = SimDisk({"dirs": ["/d"], "files": {"/d/" + name: ddata.hex()}})
                 with Facade(facade, ddisk) as dfa:
                     try:
-                        sfm.open("/d/" + name, strict=False, **dfa.kw)
+                        sfm.open(dfa.p("/d/" + name), strict=False, **dfa.kw)
                     except (MSDParserError, ValueError):
                         pass
         res.stats["probe:decoy-loaded-first"] += 1
